@@ -38,6 +38,9 @@ func genLoopCase(t *rapid.T, prop string) *Case {
 		items = append(items, map[string]any{"v": v, "mode": mode, "dur": d, "tag": tag})
 		itemExprs = append(itemExprs, ir.Obj(ir.F("v", ir.Lit(v)), ir.F("mode", ir.Lit(mode)), ir.F("dur", ir.Lit(d)), ir.F("tag", ir.Lit(tag))))
 	}
+	if rapid.IntRange(0, 4).Draw(t, "nested_loop") == 0 {
+		return genNestedLoopCase(t, prop, doc)
+	}
 	sub := &ir.Program{Name: "body.yaml", Item: true, SrcPrefix: "body.yaml/", Subs: map[string]*ir.Program{}}
 	b0 := &ir.Step{ID: "b0", Kind: "plugin", In: []ir.Field{ir.F("a", ir.Ref("input", "v")), ir.F("s", ir.Ref("input", "tag")), ir.F("mode", ir.Ref("input", "mode")), ir.F("dur", ir.Ref("input", "dur"))}}
 	if rapid.IntRange(0, 2).Draw(t, "item_deploy_expr") == 0 {
@@ -97,6 +100,107 @@ func genLoopCase(t *rapid.T, prop string) *Case {
 	return c
 }
 
+// genNestedLoopCase draws a loop whose body is itself a loop: every outer item runs an inner loop over a
+// literal list, with the inner parallelism taken from the outer item (its v) and the outer item's tag
+// carried into every inner item. Concurrent outer items must not share a limit or a result.
+func genNestedLoopCase(t *rapid.T, prop string, doc ir.Doc) *Case {
+	nOuter := rapid.IntRange(2, 4).Draw(t, "nouter")
+	nInner := rapid.IntRange(2, 4).Draw(t, "ninner")
+	innerDur := rapid.SampledFrom([]int64{5, 20, 50}).Draw(t, "inner_dur")
+	var itemExprs []*ir.Expr
+	for i := 0; i < nOuter; i++ {
+		v := int64(rapid.IntRange(1, 3).Draw(t, "outer_v")) // = parallelism of this item's inner loop
+		d := rapid.SampledFrom([]int64{0, 5, 30}).Draw(t, "outer_dur")
+		itemExprs = append(itemExprs, ir.Obj(ir.F("v", ir.Lit(v)), ir.F("mode", ir.Lit("ok")), ir.F("dur", ir.Lit(d)), ir.F("tag", ir.Lit(fmt.Sprintf("o%d", i)))))
+	}
+	inner := &ir.Program{Name: "inner.yaml", Item: true, SrcPrefix: "inner.yaml/", Subs: map[string]*ir.Program{}}
+	inner.Steps = []*ir.Step{{ID: "b0", Kind: "plugin", In: []ir.Field{ir.F("a", ir.Ref("input", "v")), ir.F("s", ir.Ref("input", "tag")), ir.F("dur", ir.Ref("input", "dur"))}}}
+	inner.Outputs = []ir.Output{{ID: "success", E: ir.Obj(ir.F("r", ir.StepRef("b0", "outputs", "success", "a")), ir.F("s", ir.StepRef("b0", "outputs", "success", "s")))}}
+	body := &ir.Program{Name: "body.yaml", Item: true, SrcPrefix: "body.yaml/", Subs: map[string]*ir.Program{"inner.yaml": inner}}
+	var innerItems []*ir.Expr
+	for j := 0; j < nInner; j++ {
+		innerItems = append(innerItems, ir.Obj(ir.F("v", ir.Lit(int64(j+1))), ir.F("tag", ir.Ref("input", "tag")), ir.F("dur", ir.Lit(innerDur))))
+	}
+	// a pre-step lets the outer items reach their inner loops at different times
+	body.Steps = []*ir.Step{
+		{ID: "pre", Kind: "plugin", In: []ir.Field{ir.F("a", ir.Ref("input", "v")), ir.F("dur", ir.Ref("input", "dur"))}},
+		{ID: "inner", Kind: "foreach", Sub: "inner.yaml", Items: &ir.Expr{K: "list", Items: innerItems}, Parallelism: ir.Ref("input", "v"), WaitFor: ir.StepRef("pre", "outputs", "success")},
+	}
+	body.Outputs = []ir.Output{{ID: "success", E: ir.Obj(ir.F("inner", ir.StepRef("inner", "outputs", "success", "data")), ir.F("tag", ir.Ref("input", "tag")))}}
+	p := &ir.Program{Subs: map[string]*ir.Program{"body.yaml": body}}
+	par := int64(rapid.IntRange(2, nOuter).Draw(t, "outer_parallelism"))
+	loop := &ir.Step{ID: "loop", Kind: "foreach", Sub: "body.yaml", Items: &ir.Expr{K: "list", Items: itemExprs}, Parallelism: ir.Lit(par)}
+	p.Steps = []*ir.Step{loop}
+	p.Outputs = []ir.Output{
+		{ID: "success", E: ir.Obj(ir.F("data", ir.StepRef("loop", "outputs", "success", "data")))},
+		{ID: "failed", E: ir.Obj(ir.F("f", ir.StepRef("loop", "failed", "error")))},
+	}
+	c := &Case{Property: prop, Profile: "nested-loops", Class: "S1", Program: p, Doc: doc}
+	c.Policy = GenPolicy(t, true)
+	c.MapMode, c.MapSeed = GenMapOrder(t)
+	c.Extra = map[string]any{"parallelism": par, "items": nOuter, "nested": true}
+	return c
+}
+
+// oracleNestedLoops: the inner item runs of one outer item never exceed that outer item's own limit.
+func oracleNestedLoops(prop string, v *View) []Violation {
+	var out []Violation
+	sf := v.Facts.Steps["loop"]
+	if sf == nil || !sf.Started {
+		return nil
+	}
+	limit := map[string]int64{} // outer tag -> inner parallelism
+	for _, it := range sf.Items {
+		m := it.(map[string]any)
+		if tag, ok := m["tag"].(string); ok {
+			if n, ok := toInt(m["v"]); ok {
+				limit[tag] = n
+			}
+		}
+	}
+	innerSrc := "sim://inner.yaml/b0"
+	group := map[int]string{} // deployment -> outer tag, known once the plugin has been given its input
+	for _, e := range v.R.Events {
+		if e.Src == innerSrc && !e.Probe && e.Kind == world.EvExecStart {
+			if in, ok := harness.Canon(e.Data["input"]).(map[string]any); ok {
+				if s, ok := in["s"].(string); ok {
+					group[e.Dep] = s
+				}
+			}
+		}
+	}
+	cur, high := map[string]int{}, map[string]int{}
+	open := map[int]bool{}
+	for _, e := range v.R.Events {
+		if e.Src != innerSrc || e.Probe {
+			continue
+		}
+		g, known := group[e.Dep]
+		if !known {
+			continue
+		}
+		switch e.Kind {
+		case world.EvDeployBegin:
+			open[e.Dep] = true
+			cur[g]++
+			if cur[g] > high[g] {
+				high[g] = cur[g]
+			}
+		case world.EvConnClose, world.EvDeployFail:
+			if open[e.Dep] {
+				delete(open, e.Dep)
+				cur[g]--
+			}
+		}
+	}
+	for _, g := range keys(high) {
+		if lim, ok := limit[g]; ok && int64(high[g]) > lim {
+			out = append(out, viol(prop, "inner-parallelism-exceeded", "", "%d inner item runs of outer item %s were in progress at the same time, its inner parallelism is %d (limits by outer item: %v)", high[g], g, lim, limit))
+		}
+	}
+	return out
+}
+
 // OracleLoop is C13.
 func OracleLoop(prop string, v *View) []Violation {
 	var out []Violation
@@ -104,6 +208,11 @@ func OracleLoop(prop string, v *View) []Violation {
 	sf := v.Facts.Steps["loop"]
 	if loop == nil || sf == nil {
 		return nil
+	}
+	if body := v.C.Program.Subs["body.yaml"]; body != nil && body.Subs["inner.yaml"] != nil {
+		out = append(out, oracleNestedLoops(prop, v)...)
+		out = append(out, OracleResult(prop, v)...)
+		return out
 	}
 	bodySrc := "sim://body.yaml/b0"
 	// (1) parallelism: deployments of the body's first step that are open at the same time
